@@ -61,6 +61,13 @@ class Engine:
                     frame.parent is not None and frame.ctx.func.kind in (
                         'staticmethod', 'classmethod'):
                 return True
+            # ... or a bound method of the caller's self handed down the same
+            # way (`self._fail(result, partial(self._canned_error, t))` ...
+            # `make_error()`): a static helper has no self of its own
+            if target.recv_is_self and frame.parent is not None and \
+                    frame.ctx.func.kind == 'staticmethod' and \
+                    frame.parent.self_same:
+                return True
             # static / class methods of the own class called through self
             f = call.func
             if frame.self_same and target.func.kind in (
